@@ -298,6 +298,133 @@ fn ef_case(cx: &mut Ctx, u: &mut Unstructured) -> R {
     })
 }
 
+// ---- (d) long histories under starvation schedules ------------------------------------------
+
+/// One victim writes a single element once while one or two attackers write
+/// other elements of the same word dozens of times, reading each back; the
+/// schedules are adversarial families (the victim gets one step every k+1
+/// steps, so its compare-exchange keeps failing) plus attacker-biased random
+/// ones. Invariant over the whole history: an element always reads as the
+/// last value stored by its only writer.
+fn starve_case<W: TWA>(cx: &mut Ctx, u: &mut Unstructured) -> R
+where
+    W::AtomicType: AtomicUnsignedInt + AsBytes + Send + Sync,
+{
+    let b = W::WBITS;
+    let straddle: bool = u.int_in_range(0u8..=2).unwrap_or(0) != 0 && b > 2;
+    // a width that does not divide the word when a straddling victim is wanted
+    let width = if straddle {
+        let mut w = u.int_in_range(2usize..=b - 1).unwrap_or(3);
+        while b % w == 0 {
+            w += 1;
+        }
+        w.min(b - 1)
+    } else {
+        [1usize, 2, b / 2, b / 4 + 1, 3][u.int_in_range(0usize..=4).unwrap_or(0)].clamp(1, b / 2)
+    };
+    let per_word = b / width;
+    // victim: the first straddling element, or the last element inside word 0
+    let victim = if straddle { per_word } else { per_word - 1 };
+    let attackers = u.int_in_range(1usize..=2).unwrap_or(1).min(per_word.saturating_sub(if straddle { 0 } else { 1 })).max(1);
+    if per_word < 1 + usize::from(!straddle) {
+        return Ok(());
+    }
+    let writes = cx.tier.pick(24usize, 48) + u.int_in_range(0usize..=16).unwrap_or(0);
+    let o = u.int_in_range(0u8..=1).unwrap_or(0);
+    let salt: u64 = u.arbitrary().unwrap_or(9);
+    let len = per_word * 2 + 3;
+    cx.hash(&("starve", W::NAME, width, straddle, attackers, writes, o, salt));
+    cx.describe(|| format!("AtomicBitFieldVec<{}> width {width}: victim writes element {victim} ({}) once; {attackers} attacker(s) write elements 0..{attackers} of the same word {writes} times each and read them back; starvation schedules", W::NAME, if straddle { "straddling words 0 and 1" } else { "inside word 0" }));
+    cx.label("starvation");
+    cx.label_if(straddle, "straddle");
+    cx.nontrivial();
+    let mask = mask128(width);
+    let initial: Vec<u128> = (0..len).map(|i| field_hash(i, salt, width)).collect();
+    let vval = !initial[victim] & mask;
+    // schedule families: (k, offset) deterministic starvation, then biased random
+    let mut families: Vec<(usize, usize, u64)> = vec![];
+    for k in 1..=6 {
+        for off in 0..=k.min(2) {
+            families.push((k, off, 0));
+        }
+    }
+    for r in 0..cx.tier.pick(10u64, 60) {
+        families.push((0, 0, salt.rotate_left(r as u32) | 1));
+    }
+    let n_fam = families.len();
+    for (k, off, rseed) in families {
+        let mut v = BitFieldVec::<W>::new(width, len);
+        for (i, x) in initial.iter().enumerate() {
+            sux::traits::BitFieldSliceMut::set(&mut v, i, W::from128(*x));
+        }
+        let a: Arc<AtomicBitFieldVec<W>> = Arc::new(v.into());
+        let bad = Arc::new(Mutex::new(None::<String>));
+        let mut jobs: Vec<Box<dyn FnOnce() + Send>> = vec![];
+        {
+            let a = a.clone();
+            jobs.push(Box::new(move || a.set_atomic(victim, W::from128(vval), ord(o))));
+        }
+        let mut last = vec![0u128; attackers];
+        for t in 0..attackers {
+            let (a, bad) = (a.clone(), bad.clone());
+            let vals: Vec<u128> = (0..writes).map(|r| (field_hash(r * 7 + t, salt ^ 0x55, width) ^ if r % 2 == 0 { mask } else { 0 }) & mask).collect();
+            last[t] = *vals.last().unwrap();
+            jobs.push(Box::new(move || {
+                for (r, val) in vals.into_iter().enumerate() {
+                    a.set_atomic(t, W::from128(val), ord(o));
+                    let g = a.get_atomic(t, ord(o)).to128();
+                    if g != val {
+                        let mut b = bad.lock().unwrap();
+                        if b.is_none() {
+                            *b = Some(format!("attacker {t}, write {r}: element {t} reads {g:#x} right after its only writer stored {val:#x}"));
+                        }
+                    }
+                }
+            }));
+        }
+        let mut x = rseed;
+        let tr = run_scheduled(jobs, |step, n| {
+            if n == 1 {
+                return 0;
+            }
+            if rseed == 0 {
+                // the victim (runnable index 0 while it lives) gets one step out of k+1
+                if (step + off) % (k + 1) == 0 {
+                    0
+                } else {
+                    1 + (step / (k + 1)) % (n - 1)
+                }
+            } else {
+                x ^= x << 13;
+                x ^= x >> 7;
+                x ^= x << 17;
+                if (x >> 40) % 6 == 0 {
+                    0
+                } else {
+                    1 + (x >> 20) as usize % (n - 1)
+                }
+            }
+        });
+        let sched = || if rseed == 0 { format!("victim runs at steps = {} mod {}", (k + 1 - off) % (k + 1), k + 1) } else { format!("attacker-biased random schedule {rseed:#x}") };
+        if tr.panicked {
+            return Err(Fail::mismatch("interleaving.starvation", format!("interleaving: a writer panicked ({})", sched())));
+        }
+        if let Some(m) = bad.lock().unwrap().take() {
+            return Err(Fail::mismatch("interleaving.starvation", format!("interleaving: AtomicBitFieldVec<{}> width {width}, victim element {victim}: {m}; {} ({} steps)", W::NAME, sched(), tr.order.len())));
+        }
+        let a = Arc::try_unwrap(a).map_err(|_| Fail::mismatch("interleaving.starvation", "writer still holds the vector"))?;
+        for i in 0..len {
+            let want = if i == victim { vval } else if i < attackers { last[i] } else { initial[i] };
+            let g = a.get_atomic(i, Ordering::SeqCst).to128();
+            if g != want {
+                return Err(Fail::mismatch("interleaving.starvation", format!("interleaving: AtomicBitFieldVec<{}> width {width}: after the history element {i} is {g:#x}, expected {want:#x}; {} ({} steps)", W::NAME, sched(), tr.order.len())));
+            }
+        }
+    }
+    cx.ops(n_fam as u64);
+    Ok(())
+}
+
 // ---- auxiliary, non-deciding: real-thread stress ------------------------------------------
 
 fn stress_case(cx: &mut Ctx, u: &mut Unstructured) -> R {
@@ -354,13 +481,15 @@ impl Property for C13 {
             Segment::random("AtomicBitVec", tier.pick(60, 600), &[1], 16, 40),
             Segment::random("EliasFanoConcurrentBuilder", tier.pick(40, 300), &[2], 16, 40),
             Segment::random("stress", tier.pick(8, 64), &[3], 8, 16),
+            // long histories under adversarial (starvation) schedules: one writer kept losing its compare-exchange
+            Segment::random("starvation-schedules", tier.pick(48, 600), &[4], 16, 40),
         ]
     }
     fn watchdog_s(&self) -> u64 {
         600
     }
     fn rule(&self) -> &'static str {
-        "schedules are the generated input: with the sched_point() hook (cfg vigna_sux_rs_verif) 2-3 writer threads are serialised by a cooperative scheduler; a case is a configuration decoded from bytes and ALL interleavings of its atomic operations are enumerated by stateless DFS when the tree has <= 4000 (quick) / 50000 (thorough) leaves (label exhaustive), otherwise random schedules are drawn (label sampled); 'operations_checked' counts schedules executed. Configurations: AtomicBitFieldVec<u8,u16,u32,u64> with widths 1..BITS (BITS-1, BITS/2+1, ...), 2-3 writers x 1-2 set_atomic calls to distinct indices placed around a word boundary (same word, adjacent words, straddling fields), random initial contents, Relaxed/SeqCst; AtomicBitVec set/swap on distinct bits across a word boundary or swaps on one shared bit; EliasFanoConcurrentBuilder with 2-6 values partitioned over 2-3 threads. Oracle after join: every written element holds its writer's value and every other element its initial value (via get_atomic and after conversion to the non-atomic form); swap return values and final bits must be explained by some sequential order respecting program order (brute force); the concurrent builder iterates to the input and serialises byte-identically to the sequential builder. Auxiliary, non-deciding: real-thread stress with barriers. Non-trivial: every configuration has >= 2 writers on a common word region; distinct = distinct hash of the decoded configuration."
+        "schedules are the generated input: with the sched_point() hook (cfg vigna_sux_rs_verif) 2-3 writer threads are serialised by a cooperative scheduler; a case is a configuration decoded from bytes and ALL interleavings of its atomic operations are enumerated by stateless DFS when the tree has <= 4000 (quick) / 50000 (thorough) leaves (label exhaustive), otherwise random schedules are drawn (label sampled); 'operations_checked' counts schedules executed. Configurations: AtomicBitFieldVec<u8,u16,u32,u64> with widths 1..BITS (BITS-1, BITS/2+1, ...), 2-3 writers x 1-2 set_atomic calls to distinct indices placed around a word boundary (same word, adjacent words, straddling fields), random initial contents, Relaxed/SeqCst; AtomicBitVec set/swap on distinct bits across a word boundary or swaps on one shared bit; EliasFanoConcurrentBuilder with 2-6 values partitioned over 2-3 threads. Oracle after join: every written element holds its writer's value and every other element its initial value (via get_atomic and after conversion to the non-atomic form); swap return values and final bits must be explained by some sequential order respecting program order (brute force); the concurrent builder iterates to the input and serialises byte-identically to the sequential builder. Long histories: one victim set_atomic (straddling or not) against 1-2 attackers writing other elements of the same word 24-64 times and reading them back, under deterministic starvation schedules (the victim gets one step in k+1, k=1..6, all offsets) and attacker-biased random ones; invariant: an element always reads as its only writer's last value. Auxiliary, non-deciding: real-thread stress with barriers. Non-trivial: every configuration has >= 2 writers on a common word region; distinct = distinct hash of the decoded configuration."
     }
     fn assumptions(&self) -> Vec<&'static str> {
         vec!["interleavings are explored at the granularity of the hooked atomic operations under sequential consistency; behaviours that exist only under weaker hardware orderings are out of reach", "a scheduling point sits before every atomic operation of AtomicBitVec::{get,set,swap} and AtomicBitFieldVec::{get_atomic,set_atomic}; a change that adds an un-hooked atomic access is only seen at the granularity of the remaining points and by the auxiliary stress"]
@@ -377,6 +506,12 @@ impl Property for C13 {
             },
             1 => bitvec_case(cx, &mut u),
             2 => ef_case(cx, &mut u),
+            4 => match u.int_in_range(0u8..=3).unwrap_or(0) {
+                0 => starve_case::<u8>(cx, &mut u),
+                1 => starve_case::<u16>(cx, &mut u),
+                2 => starve_case::<u32>(cx, &mut u),
+                _ => starve_case::<u64>(cx, &mut u),
+            },
             _ => stress_case(cx, &mut u),
         }
     }
